@@ -105,6 +105,7 @@ def impl_outcome(case, res):
             steps[p] = ("call+error", inv[0].get("args", ""), er[0]["path"])
         else:
             steps[p] = ("missing",)
+    steps["#dirs"] = ("dirs", sorted(i["path"] for i in res["log"] if i["hook"].startswith("directive:")))
     return ("ran", steps)
 
 
@@ -115,6 +116,9 @@ def parse_model(line):
     steps = {}
     for st in parts[1:]:
         f = st.split("\x1f")
+        if f[0] == "dirs":
+            steps["#dirs"] = ("dirs", sorted(x for x in f[1:] if x))
+            continue
         if f[1] == "call":
             steps[f[0]] = ("call", canon(f[2]))
         else:
@@ -144,6 +148,10 @@ def same(model, impl):
         im = impl[1].get(p)
         if im is None or ms[0] != im[0]:
             return False
+        if ms[0] == "dirs":
+            if ms[1] != im[1]:
+                return False
+            continue
         if ms[0] == "call" and ms[1] != im[1]:
             return False
         if ms[0] == "error":
